@@ -264,7 +264,40 @@ def ops_strategy():
     ), min_size=1, max_size=40)
 
 
+@st.composite
+def motif_ops(draw):
+    """k connections; some stay active by sending every `step` seconds, the others go idle (or stay busy)"""
+    k = draw(st.integers(2, 4))
+    ops = [["connect", 0] for _ in range(k)]
+    roles = [draw(st.sampled_from(["active", "idle", "busy", "partial"])) for _ in range(k)]
+    order = draw(st.permutations(list(range(k))))
+    for i in order:
+        if roles[i] == "busy":
+            ops.append(["send", i, True])
+        elif roles[i] == "partial":
+            ops.append(["partial", i])
+        else:
+            ops.append(["send", i, False])
+    step = draw(st.sampled_from([0.5, 1, 1, 1.5]))
+    for _ in range(draw(st.integers(3, 12))):
+        ops.append(["clock", step])
+        for i in range(k):
+            if roles[i] == "active":
+                ops.append(["send", i, False])
+    if draw(st.booleans()):
+        ops.append(["finish"])
+        ops.append(["clock", step])
+    return ops
+
+
 def case_strategy():
+    return st.one_of(st.fixed_dictionaries({
+        "cfg": st.fixed_dictionaries({"connection_limit": st.sampled_from([6, 100]), "channel_timeout": st.just(2),
+                                      "cleanup_interval": st.sampled_from([1, 1, 30]), "threads": st.sampled_from([1, 2])}),
+        "nlisten": st.sampled_from([1, 1, 2]), "capacity": st.sampled_from([None, 60]), "ops": motif_ops()}), _free_histories())
+
+
+def _free_histories():
     return st.fixed_dictionaries({
         "cfg": st.fixed_dictionaries({"connection_limit": st.sampled_from([4, 6, 100]), "channel_timeout": st.sampled_from([2, 2, 120]),
                                       "cleanup_interval": st.sampled_from([1, 30]), "threads": st.sampled_from([1, 2])}),
